@@ -119,6 +119,15 @@ def declare(spec):
                                  "ev_get(typeof(self), '%s') == '%s'"
                                  % (kw.arg, kw.arg, kw.value.value), 'aux')
                     Wk.groups['R'].append('R3')
+    # a World under construction: alive (the constructor holds it), its class-level facts (R3)
+    def new_world(X, obj, cv):
+        X.assume(spec.eval_bool(X, 'alive(w)', {'w': obj}))
+        for cname, role, f in spec.wf_clauses(X, obj, 'R3'):
+            X.assume(f)
+        spec.note_assumption('a newly allocated World is alive and carries the event map of the '
+                             '@event_handler decorator on class World (T4)')
+    spec.alloc_hooks = getattr(spec, 'alloc_hooks', {})
+    spec.alloc_hooks.setdefault('World', []).append(new_world)
     spec.klass(None, 'Ent')
     spec.klass(None, 'IdGen')
     spec.klass(None, 'Factory')
@@ -684,6 +693,8 @@ def register_processors(spec):
                               'self._components == old(self._components) and '
                               'self._dead_entities == old(self._dead_entities)',
         'flag-untouched': 'self._dispatch_enabled == old(self._dispatch_enabled)',
+        'queued-events-stay-queued': 'implies(not old(self._dispatch_enabled), '
+                                     'is_prefix(old(self._event_queue), self._event_queue))',
         'unregistered': 'implies(%s and has_events(typeof(result)), '
                         'not (wref(result) in self._handlers))' % found,
         'other-handlers-kept': 'all(implies(not (%s and r == wref(result)), '
@@ -746,6 +757,9 @@ def register_processors(spec):
                               'self._components == old(self._components) and '
                               'self._dead_entities == old(self._dead_entities)',
         'registered-as-handler': 'implies(has_events(typeof(processor)), wref(processor) in self._handlers)',
+        'flag-untouched': 'self._dispatch_enabled == old(self._dispatch_enabled)',
+        'queued-events-stay-queued': 'implies(not old(self._dispatch_enabled), '
+                                     'is_prefix(old(self._event_queue), self._event_queue))',
     }
     ens.update(proc_lifecycle('processor', 'on_add', 'True'))
     # a replaced processor of the same exact type gets on_remove (remove_processor's
@@ -773,7 +787,8 @@ def register_processors(spec):
       modifies=PSTATE + ['processor.priority', 'processor.world'],
       ghost_results={'apos': ('expr', 'index_in(self._sorted_processors, processor)', TInt)},
       ensures=ens,
-      raises={'AssertionError': {'bad-arguments': 'True'},
+      raises={'AssertionError': {'only-for-a-non-processor': 'processor == None or '
+                                                            'not desc(Processor, typeof(processor))'},
               '$OtherException': {'from-callback-only': 'True'}})
 
 
@@ -892,6 +907,21 @@ def register_clear(spec):
         return prev(X, f, args, kwargs, node)
     spec.call_object_hook = hook
 
+    # the constructor establishes the class invariant (the base case of every wf argument)
+    C(W + '__init__', params=dict(self=World, id_generator_factory=TSort('Factory')), props=['C01', 'C02'],
+      # what allocation provides: a live object of (a subclass of) World - a class-level fact
+      # is R3 - whose class-level default _dispatch_enabled = True has been seeded
+      requires=['alive(self)', "wf(self, 'R3')", 'self._dispatch_enabled'],
+      modifies=ALL + ['self.id_generator_factory'],
+      ensures={
+          'wf': ("wf(self)", 'prop'),
+          'nothing-attached': 'all(not ' + ATT + ' for e in Ent for t in Type)',
+          'nothing-pending': 'all(not (x in self._dead_entities) for x in Ent)',
+          'no-processor': 'all(not (t in self._processors) for t in Type) and '
+                          'len(self._sorted_processors) == 0',
+          'listens-to-itself': 'wref(self) in self._handlers',
+          'enabled-and-nothing-queued': 'self._dispatch_enabled and len(self._event_queue) == 0',
+      })
     C(W + 'clear', params=P, props=['C01', 'C02'], requires=["wf(self)"], modifies=ALL,
       ensures={
           'wf': ("wf(self)", 'prop'),
